@@ -43,7 +43,7 @@ if not out.get('confirmed'):
 dst = os.path.join(V, 'seeded', name)
 os.makedirs(dst, exist_ok=True)
 for f in os.listdir(sdir):
-    if os.path.isfile(os.path.join(sdir, f)) and os.path.getsize(os.path.join(sdir, f)) < 200000:
+    if os.path.isfile(os.path.join(sdir, f)) and os.path.getsize(os.path.join(sdir, f)) < 200000 and os.path.abspath(sdir) != os.path.abspath(dst):
         shutil.copy(os.path.join(sdir, f), dst)
 caught = {}
 if checks:
